@@ -234,7 +234,7 @@ def observe(ctx: fw.Ctx, hists):
                        "binder": binder_kind(res), "separated": separated(res, before),
                        "binder_value": binder_value(res), "nested": len(names) > 1}
                 ctx.fail(key, {"doc": h.text, "ops": [list(x.op) for x in h.recs], "at": list(r.op), "before": before,
-                               "output": r.out, "expected": want},
+                               "output": r.out, "expected": want, "stream": h.info.get("stream")},
                          f"set {r.op[1]!r} through reference {name!r} on {before!r}: got {r.out!r}, expected {want!r}")
 
 
@@ -287,6 +287,7 @@ def run(ctx: fw.Ctx):
                        "reference cycles are C10's business"]
     hists = []
     for text, path, info in docs_stream(ctx):
+        info = dict(info, stream="fixed")
         hists.append(ec.run_real(text, [("set", path, '"NEW"')], info))
         hists.append(ec.run_real(text, [("set", path, '"NEW"'), ("set", path, '"NEWER"')], info))
     # scoping that changes between edits of one document object (a stale scope chain would show)
@@ -297,7 +298,7 @@ def run(ctx: fw.Ctx):
         ("rec {\n  a = b;\n  b = c;\n  c = \"3\";\n}\n", [("set", "a", '"N1"'), ("set", "b", '"mid"'), ("set", "a", '"N2"')]),
     ]:
         hists.append(ec.run_real(text, ops, {"wrapper": "bare", "history": True}))
-    stride, nrand = (11, 500) if ctx.quick else (2, 8000)
+    stride, nrand = (11, 500) if ctx.quick else (1, 8000)
     hists += ep.build_stream(ctx, stride, nrand, 8, enum_offset=6)
     # The edit model's resolver sees the let layers and the `rec` self scope; scopes inherited from a
     # wrapper (a literal `with` environment) are C10's model: those documents go to the oracle only.
@@ -352,7 +353,7 @@ def call_inherit(ctx: fw.Ctx):
         ctx.case({"doc": text, "path": path, "shape": sname, "inherits": clause is not None}, clause is not None)
         ctx.count("call-inherit:" + ("inherited" if clause else "not-inherited") + ":" + r.result)
         key = {"clause": "call-inherit", "shape": sname}
-        inp = {"doc": text, "ops": [["set", path, '"NEW"']], "output": r.out}
+        inp = {"doc": text, "ops": [["set", path, '"NEW"']], "output": r.out, "stream": "fixed"}
         if clause is None:
             # the leaf is not inherited by the call argument: the path runs through a non-set, the edit
             # cannot be applied (C05/C08) and nothing may change
